@@ -19,12 +19,13 @@ from mc import core, e1_history
 PROPERTY = 'C10'
 LEVEL = 'model_checking'
 RULE = ('BFS over histories of {addReader, addWriter, removeReader, removeWriter, discard, peer write, drain, fill send buffer, '
-        'unfill, peer close, discard+close+reopen (same fd number), close-without-discard+reopen+register} on 1-2 real socket pairs; '
+        'unfill, peer close, add reader/writer by a second component, discard+close+reopen (same fd number), close-without-discard+reopen+register} on 1-2 real socket pairs; '
         'each history replayed under Select, Poll and EPoll; state = set-model roles x measured kernel readiness x poller tables; '
         'non-trivial = state in which some descriptor is registered for a role and ready for it; distinct = distinct canonical state')
 ASSUMPTIONS = [
     'set model: add* is idempotent, one remove*/discard ends the registration (the statement quantifies over every sequence)',
-    'both roles of one socket are registered by the same component (the per-descriptor target is a single channel by design)',
+    'the per-descriptor target is a single channel by design (the latest add* decides): with two components registering the same '
+    'descriptor the channel of an event is judged whenever every role registered now was last added by the latest registrant',
     'events for hung-up descriptors (peer closed) are judged only for V1/V4 (readiness event or _disconnect are both documented)',
     'V2 (ready => event) is judged on the second of two loop iterations after each operation (steady state)',
     'Linux AF_UNIX semantics; lowest-free-fd allocation makes fd reuse deterministic (asserted)',
@@ -78,6 +79,9 @@ class Sub:
             pr.log = self.log
             pr.register(self.root)
             self.owners.append(pr)
+        self.second = Probe(channel='zb')      # a second component that may register the same descriptors
+        self.second.log = self.log
+        self.second.register(self.root)
         self.sides = [Side() for _ in range(nsock)]
         self.lock = threading.RLock()
         self.dead = []          # sockets that were discarded/closed: must never be named again
@@ -169,11 +173,15 @@ class PollModel(e1_history.Model):
         n = self.nsock
         g = {'roles': [set() for _ in range(n)], 'peer_open': [True] * n, 'has_data': [False] * n, 'filled': [False] * n,
              'gen': [0] * n, 'removed_once': [0] * n, 'peer_full': [False] * n, 'gone': [False] * n, 'closed_undiscarded': [False] * n, 'late': [0] * n}
+        g['adder'] = [dict() for _ in range(n)]      # role -> 'A' | 'B', the component whose add* came last for that role
+        g['last'] = [None] * n                        # the component whose add* (any role) came last for the descriptor
         for op, i in hist:
-            if op == 'addReader':
+            if op in ('addReader', 'addReaderB'):
                 g['roles'][i].add('r')
-            elif op == 'addWriter':
+                g['adder'][i]['r'] = g['last'][i] = 'B' if op.endswith('B') else 'A'
+            elif op in ('addWriter', 'addWriterB'):
                 g['roles'][i].add('w')
+                g['adder'][i]['w'] = g['last'][i] = 'B' if op.endswith('B') else 'A'
             elif op == 'removeReader':
                 if 'r' not in g['roles'][i]:
                     g['removed_once'][i] += 1
@@ -208,6 +216,8 @@ class PollModel(e1_history.Model):
             elif op == 'ccr':
                 g['closed_undiscarded'][i] = True
                 g['roles'][i] = {'r'}
+                g['adder'][i] = {'r': 'A'}
+                g['last'][i] = 'A'
                 g['gen'][i] += 1
                 g['peer_open'][i], g['has_data'][i], g['filled'][i] = True, False, False
         return g
@@ -232,6 +242,10 @@ class PollModel(e1_history.Model):
             po.addReader(owner, sd.s)
         elif name == 'addWriter':
             po.addWriter(owner, sd.s)
+        elif name == 'addReaderB':
+            po.addReader(sub.second, sd.s)
+        elif name == 'addWriterB':
+            po.addWriter(sub.second, sd.s)
         elif name == 'removeReader':
             po.removeReader(sd.s)
         elif name == 'removeWriter':
@@ -349,8 +363,15 @@ class PollModel(e1_history.Model):
                                     % (sub.pname, name, i, sorted(g['roles'][i]))))
                     if name in ('_disconnect', '_error') and not g['roles'][i] and which == 'second':
                         bad.append(('V1-not-registered:' + name, '%s: %s for socket %d which is not registered at all' % (sub.pname, name, i)))
-                    if chan != sub.owners[i].channel:
-                        bad.append(('V3-channel', '%s: %s for socket %d delivered on channel %r, registered by %r' % (sub.pname, name, i, chan, sub.owners[i].channel)))
+                    # one channel per descriptor by design (the latest add* decides): judged whenever every role registered now
+                    # was last added by the component whose add* came last - then that component is `the one that registered it`
+                    adders = {g['adder'][i].get(r) for r in g['roles'][i]}
+                    if adders == {g['last'][i]}:
+                        want = sub.owners[i].channel if g['last'][i] == 'A' else sub.second.channel
+                        if chan != want:
+                            bad.append(('V3-channel', '%s: %s for socket %d delivered on channel %r, registered by %r' % (sub.pname, name, i, chan, want)))
+                        elif g['last'][i] == 'B':
+                            st.counters['events_addressed_to_a_second_registrant'] += 1
                     if role and not hup and ((role == 'r' and not kr) or (role == 'w' and not kw)):
                         bad.append(('V1-not-ready:' + name, '%s: %s for socket %d which is not ready for it' % (sub.pname, name, i)))
                     if which == 'second' and not hup:
@@ -359,7 +380,7 @@ class PollModel(e1_history.Model):
             # at once): the poller must say something about it in the iterations right after the registration - a readiness
             # event or _disconnect, both are documented - instead of staying silent
             lastop, lasti = hist[-1]
-            if lastop in ('addReader', 'addWriter') and not g['gone'][lasti]:
+            if lastop in ('addReader', 'addWriter', 'addReaderB', 'addWriterB') and not g['gone'][lasti]:
                 sd = sub.sides[lasti]
                 if kernel(sd.s)[2] and not any(sock is sd.s for (_n, sock, _c) in it1 + it2):
                     bad.append(('V2-hungup-silent:' + lastop, '%s: socket %d is hung up and was just registered with %s, but no event named it'
@@ -430,7 +451,8 @@ class PollModel(e1_history.Model):
             tabs.append(tuple(sorted((k if not isinstance(k, int) else 'n%d' % k, self._lab(sub, v)) for k, v in mp.items())))
             ks = tuple(kernel(sd.s) + (sd.peer.fileno() >= 0,) for sd in sub.sides)
             out.append((tuple(tabs), ks))
-        return (tuple(tuple(sorted(r)) for r in g['roles']), tuple(g['gen']), tuple(g['filled']), tuple(out))
+        return (tuple(tuple(sorted(r)) for r in g['roles']), tuple(g['gen']), tuple(g['filled']), tuple(out),
+                tuple(tuple(sorted(a.items())) for a in g['adder']), tuple(g['last']))
 
     @staticmethod
     def _lab(sub, x):
@@ -447,11 +469,13 @@ class PollModel(e1_history.Model):
 
 FULL_OPS = ['addReader', 'addWriter', 'removeReader', 'removeWriter', 'discard', 'peer_write', 'drain', 'fill', 'unfill',
             'peer_close', 'dcr', 'ccr', 'ccx', 'ldisc']
+TWO_OWNER_OPS = ['addReader', 'addWriter', 'addReaderB', 'addWriterB', 'removeReader', 'removeWriter', 'discard', 'peer_write']
 SMALL_OPS = ['addReader', 'addWriter', 'removeWriter', 'discard', 'peer_write', 'dcr', 'ccr', 'ldisc']
 
 
 def run(tier, seed, workers):
-    plan = [(1, FULL_OPS, 7), (2, SMALL_OPS, 4), (2, FULL_OPS, 3)] if tier == 'quick' else [(1, FULL_OPS, 12), (2, SMALL_OPS, 8), (2, FULL_OPS, 6)]
+    plan = [(1, FULL_OPS, 7), (2, SMALL_OPS, 4), (2, FULL_OPS, 3), (1, TWO_OWNER_OPS, 5)] if tier == 'quick' else [
+        (1, FULL_OPS, 12), (2, SMALL_OPS, 8), (2, FULL_OPS, 6), (1, TWO_OWNER_OPS, 9), (2, TWO_OWNER_OPS, 5)]
     total = core.Stats()
     states = 0
     for nsock, ops, depth in plan:
